@@ -1,5 +1,6 @@
 SPECIFICATION MSpec
-CONSTANTS MaxLen = 4
+CONSTANTS HighLiteral = TRUE
+          MaxLen = 4
           Alphabet <- Cover
 INVARIANT RoundTripInv
 CHECK_DEADLOCK FALSE
